@@ -14,6 +14,7 @@ from pyvc import heap as H
 from pyvc.heap import PENDING, RESULT, EXC, CANCELLED, st
 
 LEVEL = "other"
+STANDIN_ALWAYS_THOROUGH = True      # its large bound takes seconds: used at both tiers
 EXPLANATION = ("MIXED: _Connector's registered callbacks verified symbolically from arbitrary states of the result future, timers and "
                "remaining-counter with address lists of length <= 2 per family (bounded symbolic): settle-once guards, losers closed, "
                "late successes closed, next-address / secondary-queue start, remaining accounting. Whole-schedule clauses (exactly once, "
